@@ -227,10 +227,11 @@ enum PolicyStateKind<C> {
     },
     // mpc computation is executing in a separate tokio task
     Executing {
-        // use Notify because we notify in both directions, first from the `cancel` method
-        // to the tokio task to signal cancellation, and then the other direction if the
-        // cancel error has been sent to the output URL
+        // notified by the `cancel` method to signal cancellation to the tokio task
         cancel: Arc<Notify>,
+        // notified by the tokio task when it has ended, i.e. when nothing will be sent
+        // to the output URL anymore (the result, an error or the cancel error)
+        done: Arc<Notify>,
     },
 }
 
@@ -852,8 +853,10 @@ where
                 let tmp_dir = self.tmp_dir_path.clone();
                 let cmd_tx = self.cmd_tx.clone();
                 let cancel = Arc::new(Notify::new());
+                let done = Arc::new(Notify::new());
                 self.state_kind = PolicyStateKind::Executing {
                     cancel: Arc::clone(&cancel),
+                    done: Arc::clone(&done),
                 };
                 #[cfg(polytune_verif)]
                 let verif_tag = self.verif_tag;
@@ -910,9 +913,12 @@ where
                             if let Err(err) = send_cancel(channel.client, policy).await {
                                 error!(%err, "unable to send cancelled error to output destination")
                             }
-                            cancel.notify_one();
                         }
-                    )
+                    );
+                    // A separate Notify is used for this direction: if `cancel` notified itself
+                    // on the same Notify before this task was polled, it would consume its own
+                    // permit and return before the cancellation has happened.
+                    done.notify_one();
                 };
 
                 tokio::spawn(fut.instrument(span));
@@ -1150,12 +1156,13 @@ where
                 channel: Channel { client, .. },
                 ..
             } => (client, policy),
-            PolicyStateKind::Executing { cancel } => {
+            PolicyStateKind::Executing { cancel, done } => {
                 // send_cancel is called in spawned mpc tokio task
                 cancel.notify_one();
-                // when this is notified, the error has been sent to output
+                // when this is notified, the task has ended: the cancel error (or the result,
+                // if the computation had already finished) has been sent to the output
                 // destination if available
-                cancel.notified().await;
+                done.notified().await;
                 let _ = ret.send(Ok(()));
                 return;
             }
